@@ -8,11 +8,9 @@
    or uint64.  8-bit representations are outside every theorem below (K48: std::chrono::round / floor
    wrap for int8 targets); unsigned time points cannot be printed at all (the library does not compile).
 
-   One input class is left on which the faithful model falsifies the full-strength statements; for it the
-   statement is kept, refuted by a kernel-evaluated witness (_refuted) and proved outside the class
-   (_outside):
-     rt_defect P R t  =  2^63 - 1 - 719468 < t / ticks_per_day
-                         (K35: the last 719468 values of time_point<days,int64>; days + 719468 overflows) *)
+   No input class is left for time points: K35 (the last 719468 values of time_point<days,int64>: days + 719468
+   overflowed when printing; the parser's era guard ran before the shift) was repaired in /repo 2854d54 and the
+   model follows; T_C14_print and T_C14_parse_print are stated at full strength. *)
 From BS Require Import Base ChronoSpec ChronoModel ChronoArith ChronoDecimal ChronoSweep ChronoCalendar ChronoYear
   ChronoSafe ChronoSafeAdd ChronoText ChronoTp ChronoTpParse ChronoTpRt ChronoTs ChronoRefute
   ChronoDur ChronoDurPrint ChronoDurParse ChronoDurRt ChronoDurDenote ChronoDurU64 ChronoWide ChronoProps ChronoMp.
@@ -54,31 +52,31 @@ Theorem T_C14_spec_datetime : forall P t,
 Proof. exact spec_datetime_valid. Qed.
 Print Assumptions T_C14_spec_datetime.
 
-(* ---- T_C14_print, full strength:
-        forall P R t, c14_rep P R -> fits R t = true -> tp_print P R t = Ok (iso_text P (spec_datetime P t))
-      (the documented text [+-]YYYY-MM-DDThh:mm:ss[.f]Z of the proleptic-Gregorian date-time, sign exactly
-      outside 0000..9999, 3/6/9 fraction digits; includes: no UB, fits the 48-byte buffer).
-      Still FALSE on K35: ---- *)
-Theorem T_C14_print_refuted : exists P R t, c14_rep P R /\ fits R t = true /\
-  tp_print P R t <> Ok (iso_text P (spec_datetime P t)).
-Proof. exact c14_print_refuted. Qed.
-Print Assumptions T_C14_print_refuted.
-
-Theorem T_C14_print_outside : forall P R t, c14_rep P R -> fits R t = true -> rt_defect P R t = false ->
+(* ---- T_C14_print (full strength since the repair of K35 in /repo 2854d54): the documented text
+      [+-]YYYY-MM-DDThh:mm:ss[.f]Z of the proleptic-Gregorian date-time, sign exactly outside 0000..9999, 3/6/9
+      fraction digits; includes: no UB, fits the 48-byte buffer; every representable value of every int64 / int32
+      time point ---- *)
+Theorem T_C14_print : forall P R t, c14_rep P R -> fits R t = true ->
   tp_print P R t = Ok (iso_text P (spec_datetime P t)).
 Proof. exact tp_print_correct. Qed.
-Print Assumptions T_C14_print_outside.
-
-(* the defect class is empty except for time_point<days,int64> *)
-Theorem T_C14_defect_class : forall P R t, c14_rep P R -> fits R t = true -> rt_defect P R t = true -> P = Pd /\ R = I64.
-Proof. exact rt_defect_days. Qed.
-Print Assumptions T_C14_defect_class.
+Print Assumptions T_C14_print.
 
 Example T_C14_print_example :
-  rt_defect Pms I64 1689374691925 = false /\
   tp_print Pms I64 1689374691925 = Ok [50;48;50;51;45;48;55;45;49;52;84;50;50;58;52;52;58;53;49;46;57;50;53;90]%N.
 Proof. exact c14_print_example. Qed.
 Print Assumptions T_C14_print_example.
+
+(* regression: K35 / K35b (repaired): the last day of time_point<days,int64> prints and parses back, the first value of
+   the former class prints, one day beyond either end of the type is out_of_range, the first day parses back *)
+Example T_C14_K35_repaired :
+  tp_print Pd I64 9223372036854775807 = Ok text_K35 /\ tp_parse Pd I64 text_K35 = Ok 9223372036854775807 /\
+  tp_print Pd I64 9223372036854056340 = Ok [43;50;53;50;53;50;55;51;52;57;50;55;55;54;54;53;53;52;45;48;57;45;50;54;84;48;48;58;48;48;58;48;48;90]%N /\
+  tp_parse Pd I64 [43;50;53;50;53;50;55;51;52;57;50;55;55;54;56;53;50;52;45;48;55;45;50;56;84;48;48;58;48;48;58;48;48;90]%N = Err OutOfRange /\
+  tp_print Pd I64 (-9223372036854775808) = Ok [45;50;53;50;53;50;55;51;52;57;50;55;55;54;52;53;56;53;45;48;54;45;48;55;84;48;48;58;48;48;58;48;48;90]%N /\
+  tp_parse Pd I64 [45;50;53;50;53;50;55;51;52;57;50;55;55;54;52;53;56;53;45;48;54;45;48;55;84;48;48;58;48;48;58;48;48;90]%N = Ok (-9223372036854775808) /\
+  tp_parse Pd I64 [45;50;53;50;53;50;55;51;52;57;50;55;55;54;52;53;56;53;45;48;54;45;48;54;84;48;48;58;48;48;58;48;48;90]%N = Err OutOfRange.
+Proof. exact r_K35. Qed.
+Print Assumptions T_C14_K35_repaired.
 
 (* regression: the inputs of the repaired findings K30, K32, K33, K34 *)
 Example T_C14_print_repaired :
@@ -89,18 +87,12 @@ Example T_C14_print_repaired :
 Proof. exact c14_print_repaired. Qed.
 Print Assumptions T_C14_print_repaired.
 
-(* ---- T_C14_parse_print, full strength:
-        forall P R t, c14_rep P R -> fits R t = true -> exists text, tp_print P R t = Ok text /\ tp_parse P R text = Ok t
-      still FALSE on K35 (nothing is printed there): ---- *)
-Theorem T_C14_parse_print_refuted : exists P R t, c14_rep P R /\ fits R t = true /\
-  ~ (exists text, tp_print P R t = Ok text /\ tp_parse P R text = Ok t).
-Proof. exact c14_parse_print_refuted. Qed.
-Print Assumptions T_C14_parse_print_refuted.
-
-Theorem T_C14_parse_print_outside : forall P R t, c14_rep P R -> fits R t = true -> rt_defect P R t = false ->
+(* ---- T_C14_parse_print (full strength since the repair of K35 / K35b): every representable value prints to a text
+      that parses back to the identical value ---- *)
+Theorem T_C14_parse_print : forall P R t, c14_rep P R -> fits R t = true ->
   exists text, tp_print P R t = Ok text /\ tp_parse P R text = Ok t.
 Proof. exact tp_roundtrip. Qed.
-Print Assumptions T_C14_parse_print_outside.
+Print Assumptions T_C14_parse_print.
 
 Example T_C14_parse_repaired : tp_parse Pns I64 text_K30 = Ok (-9223372036854775808).
 Proof. exact c14_parse_repaired. Qed.
